@@ -154,6 +154,8 @@ func c09(c *Ctx) {
 		sort.Slice(entries, func(i, j int) bool { return entries[i].String() < entries[j].String() })
 		c.noGlobalWrites("R09.P", entries, "the client's paths: two clients of one process would share it")
 	}
+	r.Rule("R09.M", "the table mutexes are given back on every path to a return (= R16.M filed under C09)", 10)
+	c.locksReleased("R09.M", c.repoFunctionsWithLocks())
 	r.Rule("R09.B", "the body stored in the outgoing message is the result of tl.Marshal(request) itself, and the bytes handed to the decoder in processResponse are the message's GetMsg() itself (nothing trimmed, re-sliced or re-encoded in between)", 3)
 	if f := c.fn("R09.B", load.RootMod, "*MTProto", "sendPacket"); f != nil {
 		var body ssa.Value
